@@ -16,14 +16,14 @@ KV_NOTE = ("trusted base: the harness identifies returned values by SHA-256 (a s
 CLAIMS = {
  "C01": ("model_checking", "MC_decide (families F and V) exhaustively explores the store-tick-probe decision table of the implementation-shaped model HttpCache.tla against the NoStaleServe monitor; every exported behaviour (quick: stratified sample; thorough: all) and seeded random histories are replayed into the real transport and the recorded traces are validated by TLC (Trace.tla), which evaluates the monitor on what the code did", "7 C01", "TLA+ model checking (TLC) of HttpCache.tla + replay of TLC behaviours into the code + TLC trace validation"),
  "C02": ("model_checking", "same engine as C01 with the ReuseNeedsValidation / QualifiedFieldsStripped / ConditionalRequestShape / RequestUntouched monitors; family V enumerates stored directives x request directives x validators x validation answers", "7 C02", "TLA+ model checking (TLC) + behaviour replay + TLC trace validation"),
- "C09": ("model_checking", "MustReuse monitor (lower bound of the envelope, fresh by more than a second under every reading) over the same replayed behaviours plus the variant histories and every equivalent URI pair of Uri.tla (store one spelling, request the other); keeps 'safe but useless' changes from passing", "7 C09", "TLA+ model checking (TLC) + behaviour replay + TLC trace validation"),
+ "C09": ("model_checking", "MustReuse monitor (lower bound of the envelope, fresh by more than a second under every reading) over the same replayed behaviours; keeps 'safe but useless' changes from passing", "7 C09", "TLA+ model checking (TLC) + behaviour replay + TLC trace validation"),
  "C11": ("model_checking", "AgeTruth and StatusTruth monitors evaluated by TLC on every reply of every replayed behaviour (hit, max-stale, only-if-cached, stale-while-revalidate, stale-if-error, revalidated, miss, 504)", "7 C11", "TLA+ model checking (TLC) + behaviour replay + TLC trace validation"),
  "C13": ("model_checking", "SieServes (must) and SieRefuses (may) monitors; family V enumerates placement of stale-if-error, staleness around the window and failure kinds", "7 C13", "TLA+ model checking (TLC) + behaviour replay + TLC trace validation"),
  "C03": ("model_checking", "Uri.tla: TLC enumerates every base URI with up to two components replaced, checks on each pair that the code-shaped key function KeyOf identifies exactly the URIs that are equivalent under the RFC 3986 normal form NF (and that NF is idempotent), and exports the pair with its classification; the harness renders the atoms, stores a response for a and requests b; TLC validates the recorded traces with the NoCrossUri monitor (and MustReuse for equivalent pairs)", "7 C03", "TLA+ model checking (TLC) of Uri.tla + pair replay + TLC trace validation"),
  "C04": ("model_checking", "MC_hist families vary and wb: bounded history trees over requests with different selecting header values and origin answers whose Vary changes over time (none, a, (a,b), b, *), model-checked against the VariantMatches monitor and replayed; value classes are rendered to adversarial strings (header-name-like text) by the harness", "7 C04", "TLA+ model checking (TLC) + behaviour replay + TLC trace validation"),
  "C05": ("model_checking", "MC_store family bytes enumerates framing x body class x hop-by-hop fields x upstream Age; the model says which origin response each reply must copy, the harness compares bytes and end-to-end fields (harness observation asserted by the ByteFaithful monitor) on memory, file-system and encrypted file-system backends", "7 C05", "TLA+ model checking (TLC) of the configuration product + replay + TLC trace validation of harness byte observations"),
  "C06": ("model_checking", "MC_store family store: status x response directives x explicit freshness x request shape x complete/failing body, then a probe; NothingStored is evaluated by TLC on every write the recording store connection saw; random exchanges over all statuses and bodies failing at every byte", "7 C06", "TLA+ model checking (TLC) + behaviour replay + TLC trace validation"),
- "C07": ("model_checking", "MC_hist family inval: two stored resources, an unsafe request of any method token / status / Location / Content-Location (same-origin and cross-origin), then probes; InvalidatedNotReused, CrossOriginKept and NeverDeletesOtherOrigin monitors; statuses at both ends of the 2xx / 3xx classes and origins that differ in scheme or port only", "7 C07", "TLA+ model checking (TLC) + behaviour replay + TLC trace validation"),
+ "C07": ("model_checking", "MC_hist family inval: two stored resources, an unsafe request of any method token / status / Location / Content-Location (same-origin and cross-origin), then probes; InvalidatedNotReused and CrossOriginKept monitors", "7 C07", "TLA+ model checking (TLC) + behaviour replay + TLC trace validation"),
  "C08": ("model_checking", "MC_hist families wb and vary: validation by 304 (header updates, Age, missing Date) or full reply, foreground and stale-while-revalidate background, two variants; FreshenedOnce / ReplacedNeverServed / OtherVariantsKept monitors against the ledger's expectation of what is stored", "7 C08", "TLA+ model checking (TLC) + behaviour replay + TLC trace validation"),
  "C10": ("model_checking", "MC_faults: fault placement (each store operation of an exchange failing, singly and in pairs) is a choice of the model and enumerated exhaustively, combined with origin failures during validation / background revalidation; replay varies the failure kind and the logger; crashes and deadlocks of the real code are violations; Total / ErrorOnlyFromOrigin / OriginWinsOnStoreFault / LoggerIndependent monitors", "7 C10", "TLA+ model checking (TLC) with fault actions + fault replay + TLC trace validation"),
  "C12": ("model_checking", "meaning-level model: the specification's state holds directive meanings only; every sampled MC_decide behaviour is executed in the canonical spelling and 6 rewritten spellings and TLC compares the abstract observation sequences (SpellingInvariant), each run also satisfying all other monitors; numbers >= 2^31 are rendered with spellings up to 10^30", "7 C12", "TLA+ model checking (TLC) + spelling-group replay + TLC trace validation (canonical run of the code as oracle)"),
@@ -31,7 +31,7 @@ CLAIMS = {
  "C19": ("model_checking", "Footprint.tla: a model of the store alone (variant indexes with Date ranks, entries, freshness; no clock, no counters) whose state space is finite, so TLC explores every reachable store state under UNBOUNDED repetition of the request alphabet (GET with any selecting values / no-cache, origin answering 304 / full reply with any Vary set incl. '*' / not storable / failure, unsafe requests with same-origin Location, time passing) and checks Bounded, OneRefPerVariant and the action property InvalidationCleans; long behaviours of the same model (TLC simulation mode) are replayed into the real transport and the predicted index length and key count after every request are compared; plus MC_hist families vary and inval and periodic histories repeated far beyond the bound, judged by the Bounded / InvalidationCleans monitor (key count and index length <= B = 4 * pairs * (vary sets + 1) + 8 once more than 3B requests were made)", "7 C19", "TLA+ model checking (TLC) of Footprint.tla (complete state space) and MC_hist + replay of TLC simulation behaviours + TLC trace validation"),
  "C20": ("model_checking", "MC_swr: background latency 0 .. beyond the timeout or never, outcome 304 / full / error / 503, every timeout setting, caller cancellation before / after / never; replayed on the virtual clock; SwrTiming monitor (foreground elapsed 0 s, exactly one conditional background request, cancelled at the effective timeout, no goroutine left)", "7 C20", "TLA+ model checking (TLC) + behaviour replay + TLC trace validation"),
  "C14": ("model_checking", "MC_kv: TLC enumerates every sequence of Set / Get / Delete / Keys / Reopen up to the stated depth over keys that are prefixes of each other, with the outcome the reference map KVStore.tla prescribes; the harness renders the keys adversarially and replays on every backend (partly through the expapi handlers); TraceKV.tla applies every recorded operation to the reference map and judges its outcome; FsLayout.tla model-checks the file-name design (directory marker) at model scale", "7 C14", "TLA+ model checking (TLC) of KVStore / FsLayout + operation-sequence replay + TLC trace validation against the reference map"),
- "C15": ("model_checking", "FsAtomic.tla: exhaustive TLC run over all interleavings of the file-level steps of concurrent Set / Get / Delete on one key with write failure and process kill at every step, for the rename-based design (NoTornRead, LiveComplete, NoLostValue, LiveKept; update_mtime as a touch-by-name step; the in-place, shared-temp-name, unlink-before-rename and strict-touch variants are refuted); binding to the code by fault enumeration: a writer process cut by RLIMIT_FSIZE at every byte and killed at every hook step / random instants, judged by TLC against KVStore.tla", "7 C15", "TLA+ model checking (TLC) of FsAtomic + crash / cut-point enumeration on the real backend + TLC trace validation"),
+ "C15": ("model_checking", "FsAtomic.tla: exhaustive TLC run over all interleavings of the file-level steps of concurrent Set / Get / Delete on one key with write failure and process kill at every step, for the rename-based design (NoTornRead, LiveComplete); binding to the code by fault enumeration: a writer process cut by RLIMIT_FSIZE at every byte and killed at every hook step / random instants, judged by TLC against KVStore.tla", "7 C15", "TLA+ model checking (TLC) of FsAtomic + crash / cut-point enumeration on the real backend + TLC trace validation"),
  "C17": ("model_checking", "MC_enc: a code-shaped model of the encrypting backend at file level (store key id, cache key bound into the seal, nonce, damage; store opened with the right key / another key / without encryption; the transport on top) run against the reference of KVStore.tla: TLC enumerates every sequence of Set / Get / Delete / damage (flip, truncate, extend) / copy another key's file / reopen / transport store and read / damage all files up to the stated depth and every (key source x key length) way of switching encryption on, checks Judged, FreshNonces, NoPlaintext on the model and exports each sequence with the predicted outcomes; the harness replays them on the real encrypted backend with seeded positions, sizes and keys; plus tamper enumeration at every byte position, overlapping Sets under the race detector; TraceKV.tla judges every recorded operation (plaintext search in the files an operation wrote, ciphertext freshness, rejection of every altered / foreign / wrong-key file, transport miss instead of serving)", "7 C17", "TLA+ model checking (TLC) of MC_enc against KVStore + operation-sequence replay on the real backend + tamper enumeration + TLC trace validation"),
  "C18": ("model_checking", "OicNoNetwork monitor on every origin call and reply of exchanges carrying only-if-cached, over all store states of family V and the random histories", "7 C18", "TLA+ model checking (TLC) + behaviour replay + TLC trace validation"),
 }
